@@ -10,7 +10,6 @@ import (
 	"os"
 	"regexp"
 	"sort"
-	"strconv"
 	"sync"
 	"time"
 
@@ -151,6 +150,9 @@ type Engine struct {
 	blockedFn   func(r *state.TaskRunner) // installs real blocked predicates (C07)
 	kindName    func(i int) string
 	restoreTime func()
+	token       func() uint64 // changes whenever a checkpoint happened
+	external    bool          // state/runner owned by a real overlord (no Stop/Restart)
+	setup       func(i int, t *state.Task)
 }
 
 var runningRe = regexp.MustCompile(`^Running task (\d+) on (\w+):`)
@@ -216,6 +218,7 @@ func NewEngine(g Graph, caseID string, out *json.Encoder, kindName func(i int) s
 		e.kindName = e.defaultKind
 	}
 	e.be = &memBackend{sig: make(chan struct{}, 1024)}
+	e.token = func() uint64 { return uint64(e.be.count()) }
 	e.started = make(chan startMsg, 1024)
 	e.dying = make(chan startMsg, 1024)
 	e.inv = make([]int, g.N)
@@ -223,6 +226,35 @@ func NewEngine(g Graph, caseID string, out *json.Encoder, kindName func(i int) s
 	e.undoInv = make([]int, g.N)
 	e.setTime(1)
 	e.st = state.New(e.be)
+	e.build()
+	e.newRunner()
+	e.emit(event{Ev: "Init", G: &e.g})
+	return e
+}
+
+// NewEngineOn runs a case on a State/TaskRunner owned by a real overlord.Overlord: the runner keeps all
+// the blocked predicates the real managers registered; only the handlers of the kinds used are replaced
+// by gated ones. token must change whenever the state was checkpointed.
+func NewEngineOn(st *state.State, runner *state.TaskRunner, token func() uint64, g Graph, caseID string,
+	out *json.Encoder, kindName func(i int) string, setup func(i int, t *state.Task)) *Engine {
+	e := &Engine{g: g, caseID: caseID, out: out, kindName: kindName, external: true, setup: setup}
+	e.token = token
+	e.started = make(chan startMsg, 1024)
+	e.dying = make(chan startMsg, 1024)
+	e.inv = make([]int, g.N)
+	e.doInv = make([]int, g.N)
+	e.undoInv = make([]int, g.N)
+	e.setTime(1)
+	e.st = st
+	e.runner = runner
+	e.build()
+	e.newRunner()
+	e.emit(event{Ev: "Init", G: &e.g})
+	return e
+}
+
+func (e *Engine) build() {
+	g := e.g
 	e.st.Lock()
 	e.chgs = make([]*state.Change, g.NC)
 	for c := 1; c <= g.NC; c++ {
@@ -262,11 +294,11 @@ func NewEngine(g Graph, caseID string, out *json.Encoder, kindName func(i int) s
 	}
 	for i := 1; i <= g.N; i++ {
 		e.chgs[g.Chg[i-1]-1].AddTask(e.tasks[i-1])
+		if e.setup != nil {
+			e.setup(i, e.tasks[i-1])
+		}
 	}
 	e.st.Unlock()
-	e.newRunner()
-	e.emit(event{Ev: "Init", G: &e.g})
-	return e
 }
 
 func (e *Engine) newRunner() {
@@ -278,7 +310,9 @@ func (e *Engine) newRunner() {
 	e.mu.Unlock()
 	e.stopped = false
 	logger.SetLogger(engLogger{e: e, gen: gen})
-	e.runner = state.NewTaskRunner(e.st)
+	if !e.external {
+		e.runner = state.NewTaskRunner(e.st)
+	}
 	mk := func(ph string) state.HandlerFunc {
 		return func(t *state.Task, tb *tomb.Tomb) error {
 			i := e.idx[t.ID()]
@@ -345,7 +379,15 @@ func (e *Engine) newRunner() {
 		if gen != e.gen {
 			return
 		}
-		c, _ := strconv.Atoi(chg.ID())
+		c := 0
+		for k, x := range e.chgs {
+			if x.ID() == chg.ID() {
+				c = k + 1
+			}
+		}
+		if c == 0 {
+			return
+		}
 		e.mu.Lock()
 		e.notes = append(e.notes, chgNote{C: c, Old: old.String(), New: new.String()})
 		e.mu.Unlock()
@@ -467,15 +509,14 @@ func (e *Engine) Finish(t int, r result) error {
 	if !ok || !isRunning {
 		return fmt.Errorf("HARNESS: task %d is not running", t)
 	}
-	before := e.be.count()
+	before := e.token()
 	gate <- r
 	deadline := time.After(watchdog)
-	for e.be.count() == before {
+	for e.token() == before {
 		select {
-		case <-e.be.sig:
 		case <-deadline:
 			return fmt.Errorf("HARNESS: no checkpoint after releasing task %d", t)
-		case <-time.After(time.Millisecond):
+		case <-time.After(200 * time.Microsecond):
 		}
 	}
 	e.mu.Lock()
